@@ -37,6 +37,7 @@ func runC06(p *Program, r *Report) {
 	checkThreadedState(p, r, "R06a", entries, 8)
 	checkRollbackPerAddition(p, r, "R06e")
 	checkMadeProofIsFilled(p, r, "R06f", entries)
+	checkEmptyRootRestored(p, r, "R06h")
 }
 
 // returnsUpdatedParam: result ri of fn has the slice type of parameter pi and
@@ -833,4 +834,172 @@ func checkTwinParentInOrder(p *Program, r *Report, rule string) {
 		}
 	}
 	r.Floor(rule, "de-twinning functions", n, 3)
+}
+
+// ---------------------------------------------------------------------------
+// R06h EMPTY-ROOT-RESTORED. When the map forest undoes additions that were
+// written over an empty root, the root position has to hold a node again (the
+// addition code requires a node at every root position it merges over, the
+// empty ones included). The code has two places that can provide it, each
+// redundant while the other is there:
+//   A  the step that re-creates the empty root stores the empty node right
+//      after it has moved the descendants down, on every continuing path;
+//   B  the undo entry ends, on every success path, with the loop that writes
+//      the previous roots (a parameter) back to the root positions.
+// The rule is the disjunction: removing one of them changes nothing, removing
+// both (or making both conditional) leaves a re-created root without a node.
+
+func checkEmptyRootRestored(p *Program, r *Report, rule string) {
+	r.Rule(rule, "EMPTY-ROOT-RESTORED: an empty root that the map forest's undo re-creates gets its node back - either the step that re-creates it stores the empty node on every continuing path, or the undo entry writes the previous roots back on every success path")
+	undo := p.Func("(*MapPollard).Undo")
+	place := p.Func("(*MapPollard).placeEmptyRoot")
+	if undo == nil || place == nil {
+		r.MissingAnchor(rule, "(*MapPollard).Undo / (*MapPollard).placeEmptyRoot", "undo entry or the empty-root step not found")
+		return
+	}
+	// --- A: callers of the empty-root step in the add-undo closure
+	aHolds, aSites := true, 0
+	aWhy := ""
+	reach := p.StaticReach(undo)
+	reach[undo] = true
+	for _, g := range sortedFuncs(p, reach) {
+		if g == place {
+			continue
+		}
+		h0 := func(b *ssa.BasicBlock) *ssa.BasicBlock { return innermostLoopHeader(b) }
+		for _, sc := range callsIn(p, g) {
+			if sc.call.Common().StaticCallee() != place {
+				continue
+			}
+			// only the add-undo use: the caller hands the position of a previous empty root (an element of a list)
+			if _, fromList := stripValue(sc.call.Common().Args[len(sc.call.Common().Args)-1]).(*ssa.UnOp); !fromList {
+				if _, isPhi := sc.call.Common().Args[len(sc.call.Common().Args)-1].(*ssa.Phi); !isPhi {
+					continue
+				}
+			}
+			if !strings.Contains(strings.ToLower(p.FuncName(g)), "add") {
+				continue
+			}
+			aSites++
+			posArg := sc.call.Common().Args[len(sc.call.Common().Args)-1]
+			// the empty-node store for that position
+			var put ssa.Instruction
+			for _, b := range g.Blocks {
+				for _, in := range b.Instrs {
+					k, m, cc := storeCall(p, in)
+					if k != "nodes" || m != "Put" || len(cc.Args) < 2 || !sameValue(cc.Args[0], posArg) {
+						continue
+					}
+					isEmpty := false
+					for _, o := range structFieldOrigins(cc.Args[1], "Hash") {
+						if !o.whole && isEmptyGlobal(o.val) {
+							isEmpty = true
+						}
+					}
+					if isEmpty && sc.call.Block().Dominates(b) {
+						put = in
+					}
+				}
+			}
+			if put == nil {
+				aHolds, aWhy = false, "no store of the empty node at the re-created position follows "+p.Pos(sc.call.Pos())
+				continue
+			}
+			// every continuing path from the call passes the store: search from the call's block, not through
+			// the store's block, for a success return or the header of the enclosing loop
+			hdr := h0(sc.call.Block())
+			seen := map[*ssa.BasicBlock]bool{put.Block(): true}
+			work := append([]*ssa.BasicBlock{}, sc.call.Block().Succs...)
+			around := false
+			for len(work) > 0 && !around {
+				b := work[len(work)-1]
+				work = work[:len(work)-1]
+				if seen[b] {
+					continue
+				}
+				seen[b] = true
+				if b == hdr {
+					around = true
+					break
+				}
+				if ret, ok := b.Instrs[len(b.Instrs)-1].(*ssa.Return); ok {
+					ops := retOperands(ret)
+					if ei := errorResultIndex(g.Signature); ei < 0 || (ei < len(ops) && isNilConst(ops[ei])) {
+						around = true
+					}
+					continue
+				}
+				work = append(work, b.Succs...)
+			}
+			if put.Block() == sc.call.Block() {
+				around = false
+			}
+			if around {
+				aHolds, aWhy = false, "a continuing path from "+p.Pos(sc.call.Pos())+" goes around the store of the empty node"
+			}
+		}
+	}
+	if aSites == 0 {
+		aHolds, aWhy = false, "the add-undo step does not call the empty-root step"
+	}
+	// --- B: the closing write-back of the previous roots in the entry
+	bHolds, bWhy := false, "the undo entry has no loop that stores the previous roots"
+	var rootsPar ssa.Value
+	for _, par := range undo.Params {
+		if sl, ok := par.Type().Underlying().(*types.Slice); ok && isHashType(sl.Elem()) {
+			rootsPar = par // the last []Hash parameter: the previous roots
+		}
+	}
+	if rootsPar != nil {
+		for _, b := range undo.Blocks {
+			for _, in := range b.Instrs {
+				k, m, cc := storeCall(p, in)
+				if k != "nodes" || m != "Put" || len(cc.Args) < 2 {
+					continue
+				}
+				hdr := innermostLoopHeader(b)
+				if hdr == nil {
+					continue
+				}
+				fromRoots := false
+				for _, o := range structFieldOrigins(cc.Args[1], "Hash") {
+					if flowsFrom(o.val, func(v ssa.Value) bool { return v == rootsPar }, 0, map[ssa.Value]bool{}) {
+						fromRoots = true
+					}
+				}
+				if !fromRoots {
+					continue
+				}
+				all := true
+				for _, ret := range returnsOf(undo) {
+					ops := retOperands(ret)
+					if ei := errorResultIndex(undo.Signature); ei >= 0 && ei < len(ops) && isNilConst(ops[ei]) && !hdr.Dominates(ret.Block()) {
+						all = false
+					}
+				}
+				// the store itself runs on every iteration
+				for _, l := range latches(hdr) {
+					if !(b == l || b.Dominates(l)) {
+						all = false
+					}
+				}
+				if all {
+					bHolds = true
+				} else {
+					bWhy = "the loop that stores the previous roots does not lie on every success path of the undo entry (or skips iterations)"
+				}
+			}
+		}
+	}
+	key := "(*MapPollard).Undo/empty-root-restored"
+	switch {
+	case aHolds && bHolds:
+		r.Discharge(rule, key, p.Pos(undo.Pos()), fmt.Sprintf("both hold: the add-undo step stores the empty node after re-creating the root (%d site(s)) and the entry writes the previous roots back on every success path", aSites), true)
+	case aHolds:
+		r.Discharge(rule, key, p.Pos(undo.Pos()), "the add-undo step stores the empty node after re-creating the root on every continuing path (the closing write-back: "+bWhy+")", true)
+	case bHolds:
+		r.Discharge(rule, key, p.Pos(undo.Pos()), "the entry writes the previous roots back on every success path (the add-undo step: "+aWhy+")", true)
+	default:
+		r.Violate(rule, key, p.Pos(undo.Pos()), "a re-created empty root is left without a node: "+aWhy+"; and "+bWhy+" - the forest answers queries as before (a missing node reads as the empty hash) and then refuses the next addition that reaches that row", "in (*MapPollard).Undo")
+	}
 }
